@@ -7,6 +7,7 @@ from __future__ import annotations
 
 import itertools
 import random
+import re
 import signal
 
 from packaging.markers import InvalidMarker as PkgInvalidMarker
@@ -811,9 +812,64 @@ SCRIPTS: list[tuple[str, list[tuple]]] = [
 ]
 
 
+def _atom_var(text: str) -> str:
+    return re.match(r"\w+", text).group(0)
+
+
+def cnf_projection_scripts() -> list[tuple[str, list[tuple]]]:
+    """A generated family (round-6 seeds C07 / C12 / C15 were all missed for want of it): markers in CONJUNCTIVE shape -
+    which parse_marker and & never return, only | does when the conjunctive candidate is the smaller one - put through
+    exclude / only / without_extras for every variable, each result re-parsed.  F1: m | m for a conjunction of
+    two-member clauses; F2: (a & c) | (a & d) factored to a & (c | d), united with a further atom on either side;
+    F3: a conjunction of a common atom and two four-member clauses sharing two members, united with common & member."""
+    V = {"pv1": 'python_version < "3.7"', "pv2": 'python_version < "3.10"', "pv3": 'python_version >= "3.10"', "os": 'os_name == "a"',
+         "sp": 'sys_platform == "linux"', "im": 'implementation_name == "cpython"', "pm1": 'platform_machine == "x1"',
+         "pm2": 'platform_machine == "x2"', "ex": 'extra == "x"', "ey": 'extra == "y"', "r1": 'platform_release >= "5"',
+         "r2": 'platform_release < "5"', "ps": 'platform_system == "x"'}
+    out: list[tuple[str, list[tuple]]] = []
+
+    def projections(steps, reg, variables):
+        variables = sorted(set(variables))
+        for v in variables:
+            steps += [(f"x_{v}", "exclude", reg, [v]), (f"xt_{v}", "reparse", f"x_{v}"),
+                      (f"o_{v}", "only", reg, [w for w in variables if w != v]), (f"ot_{v}", "reparse", f"o_{v}"),
+                      (f"k_{v}", "only", reg, [v])]
+        if "extra" in variables:
+            steps += [("w", "without_extras", reg, ["extra"]), ("wt", "reparse", "w")]
+
+    f1 = [[("pv1", "ex"), ("pv3", "ey"), ("sp", "im")], [("pv1", "ex"), ("pv2", "ey")], [("os", "ex"), ("os", "sp"), ("pv3", "im")],
+          [("pv1", "r1"), ("pv2", "r2")], [("os", "pm1"), ("os", "pm2"), ("sp", "ex")], [("pm1", "ex"), ("pm2", "ey")],
+          [("pv1", "os"), ("pv3", "os")], [("ex", "sp"), ("ey", "sp"), ("pv1", "im")]]
+    for cl in f1:
+        src = " and ".join(f"({V[p]} or {V[q]})" for p, q in cl)
+        steps = [("m", "parse", src), ("M", "or", "m", "m"), ("Mt", "reparse", "M")]
+        projections(steps, "M", [_atom_var(V[k]) for pq in cl for k in pq])
+        out.append((f"F1 self-union of {src}", steps))
+    for a in ("os", "pv1"):
+        for c, d in (("pm1", "im"), ("pm1", "pm2"), ("ex", "im"), ("r1", "r2")):
+            for x in ("ps", "sp", "ex"):
+                if x in (c, d):
+                    continue
+                steps = [("ac", "parse", f"{V[a]} and {V[c]}"), ("ad", "parse", f"{V[a]} and {V[d]}"), ("x", "parse", V[x]),
+                         ("fac", "or", "ac", "ad"), ("M1", "or", "fac", "x"), ("M2", "or", "x", "fac"), ("M1t", "reparse", "M1")]
+                vs = [_atom_var(V[k]) for k in (a, c, d, x)]
+                projections(steps, "M1", vs)
+                steps += [("y_" + v, "exclude", "M2", [v]) for v in sorted(set(vs))] + [("p2", "only", "M2", sorted({_atom_var(V[a]), _atom_var(V[x])}))]
+                out.append((f"F2 factored union {a},{c},{d} with {x}", steps))
+    for common in ("pv3", "im"):
+        for (e, f) in (("r1", "r2"), ("ex", "ey"), ("pv1", "pv2")):
+            if common == "pv3" and e == "pv1":
+                continue
+            big = f"{V[common]} and ({V['os']} or {V['sp']} or {V['pm1']} or {V[e]}) and ({V['os']} or {V['sp']} or {V['pm2']} or {V[f]})"
+            steps = [("m", "parse", big), ("n", "parse", f"{V[common]} and {V['os']}"), ("u", "or", "m", "n"), ("ut", "reparse", "u")]
+            projections(steps, "u", [_atom_var(V[k]) for k in (common, "os", "sp", "pm1", e)])
+            out.append((f"F3 shared members {common},{e},{f}", steps))
+    return out
+
+
 def scripted_sessions() -> list[dict]:
     out = []
-    for k, (_, steps) in enumerate(SCRIPTS):
+    for k, (_, steps) in enumerate(SCRIPTS + cnf_projection_scripts()):
         s = MSession(0, 7000 + k)
         reg: dict[str, int | None] = {}
         for st in steps:
